@@ -64,6 +64,8 @@ THEOREMS = [
     "MysticVerif.C07.ens_decorates_once",
     "MysticVerif.C07.ens_settled_not_redecorated",
     "MysticVerif.C07.ens_untoggled_witness",
+    "MysticVerif.C07.ens_generation0_member_iterated_once",
+    "MysticVerif.C07.ens_generations_guard_witness",
 ]
 
 
@@ -1459,7 +1461,9 @@ def ens_termination(t):
 def run_ensemble(case, mapper, mode, probe=True):
     """mode: 'solve' | 'solve-step' | 'step-loop' (SetObjective, then Step() until a message) | 'step-cost' (Step(cost)
     until a message) | ['steps-solve', j] (j Steps, then Solve(): step-wise all the way, the step switch is sticky) |
-    ['steps-whole', j] (j Steps, then Solve(step=False): the members are finished off in run-to-completion mode)"""
+    ['steps-whole', j] (j Steps, then Solve(step=False): the members are finished off in run-to-completion mode) |
+    ['step-over', j] (Step() until a message, then j more Steps: a fixed number of Steps that covers the slowest member) |
+    ['solve-over', j] (Solve(), then j Steps on the finished ensemble)"""
     from mystic.solvers import LatticeSolver, BuckshotSolver, SparsitySolver, NelderMeadSimplexSolver, PowellDirectionalSolver
     from mystic.ensemble import MixedSolver
     from mystic.monitors import Monitor
@@ -1530,6 +1534,15 @@ def run_ensemble(case, mapper, mode, probe=True):
         elif mode == "step-cost":
             while not s.Step(cost) and nstep < 20000:
                 nstep += 1
+        elif mode[0] in ("step-over", "solve-over"):
+            if mode[0] == "solve-over":
+                s.Solve(cost)
+            else:
+                s.SetObjective(cost)
+                while not s.Step() and nstep < 20000:
+                    nstep += 1
+            for _ in range(int(mode[1])):
+                s.Step()
         else:
             for _ in range(int(mode[1])):
                 if s.Step(cost):
@@ -1614,7 +1627,58 @@ def ens_case(rng, tier):
     case["constraints"] = solvergen.gen_constraints(rng, dim, box) if rng.random() < 0.25 else None
     case["monitors"] = rng.choice(["both", "both", "both", "step", "eval", "none"])
     case["steps_before"] = rng.choice([1, 2, 3, 5, 9, 17])
+    # EARLY STOPS (drawn last: the fields above keep their values).  A member that has made only its initial evaluation
+    # (one step record, generations == 0) and ALREADY meets its termination is the one case in which only the stop test
+    # `Step` makes before it iterates (abstract_solver.py l.1097-1100, `if len(self._stepmon)`) keeps a member as it is in
+    # step-wise mode - run-to-completion mode never calls Step on it again.  The level at which the members stop is tied to
+    # what THIS ensemble's members really see: `ens_resolve_early` reads the members' energy histories off a probe run and
+    # puts a one-sided value-to-reach level through the `rank`-th smallest energy the members have at generation `gen`, so
+    # that some members (one ... all but one; rank 1.0: all) stop at generation <= gen and the others run on to their own stop.
+    if rng.random() < 0.5:
+        case["early"] = {"gen": rng.choice([0, 0, 0, 0, 1, 1, 2, 3, 5]), "rank": rng.choice([rng.random(), rng.random(), 0.0, 1.0]),
+                         "alone": rng.random() < 0.25, "over": rng.randint(1, 3)}
     return case
+
+
+def vtr_below(level):
+    """('VTR', tolerance, target) that holds exactly for energies e with `e <= level` (and e >= level - 2 * tolerance):
+    termination.VTR tests `abs(energy_history[-1] - target) <= tolerance`"""
+    w = 4.0 * 2.0 ** math.ceil(math.log2(max(1.0, abs(level))))
+    t = level - w
+    while not abs(level - t) <= w:       # rounding of level - w: widen by one ulp until the level itself is inside
+        w = math.nextafter(w, math.inf)
+    return ("VTR", w, t)
+
+
+def ens_resolve_early(case):
+    """fix the termination of an early-stop case from a probe run (deterministic: same case, same seed => same level).
+    Returns the generation-0 energies of the members, or None when the probe could not be made"""
+    ea = case["early"]
+    probe = dict(case); probe.pop("early")
+    if probe.get("nested_cfg") == "instance":
+        probe["nested_cfg"] = "instance+objective"
+    if probe["maxiter"] is None or probe["maxiter"] > 30:
+        probe["maxiter"] = 30                   # the histories are read up to generation 5 only
+    try:
+        pr, _ = run_ensemble(probe, None, "solve", probe=False)
+    except Exception:
+        return None
+    hs = [m["stepmon_y"] for m in pr["members"]]
+    if not hs or any(len(h) == 0 or any(v != v for v in h) for h in hs):
+        return None
+    vals = sorted(h[min(ea["gen"], len(h) - 1)] for h in hs)
+    level = vals[min(len(vals) - 1, int(ea["rank"] * len(vals)))]
+    if not math.isfinite(level):
+        return None
+    v = vtr_below(level)
+    ea["level"] = level
+    if ea["alone"] or case["term"] is None:
+        case["term"] = v
+        if case["maxiter"] is None:
+            case["maxiter"] = 60                # members that never come down to the level stop at the limit
+    else:
+        case["term"] = ("Or", v, case["term"])
+    return [h[0] for h in hs]
 
 
 def ens_diff(base, r):
@@ -1638,6 +1702,44 @@ def ens_diff(base, r):
     return dk, dr, ds
 
 
+OVERSTEP_KEY = "ens/step-after-termination/ensemble-redecoration-clips-best-member-vertices-outside-strict-ranges"
+
+
+def overstep_clip_only(case, base, r, dk, dr, ds):
+    """known finding F75 (known_findings.d/C07.json), the strongest true statement inside its class: Steps on an ensemble
+    that has already stopped in step-wise mode change NOTHING but coordinates of the best member's stored vertices that
+    lie OUTSIDE the strict ranges (and with them the reported bestSolution / population, which are that member's), and
+    every changed coordinate ends inside the ranges; energies, counters, histories, messages, every other member and
+    every coordinate inside the ranges are exactly those of the run-to-completion run"""
+    if case.get("lo") is None:
+        return False
+    best = base["best_id"]
+    if not set(dk) <= {"bestSolution"}:
+        return False
+    if any(i != best or not set(kk) <= {"bestSolution"} for i, kk in dr):
+        return False
+    if any(i not in (None, best) or not set(kk) <= {"population"} for i, kk in ds):
+        return False
+    lo, hi = case["lo"], case["hi"]
+
+    def ok(a, b):
+        if len(a) != len(b) or len(a) != len(lo):
+            return False
+        for x, y, l, h in zip(a, b, lo, hi):
+            if bits(x) != bits(y) and not ((x < l or x > h) and l <= y <= h):
+                return False
+        return True
+    pairs = [(base["bestSolution"], r["bestSolution"])] + list(zip(base["population"], r["population"]))
+    if len(base["population"]) != len(r["population"]):
+        return False
+    if isinstance(best, int) and 0 <= best < len(base["members"]):
+        ma, mb = base["members"][best], r["members"][best]
+        if len(ma["population"]) != len(mb["population"]):
+            return False
+        pairs += [(ma["bestSolution"], mb["bestSolution"])] + list(zip(ma["population"], mb["population"]))
+    return all(ok(a, b) for a, b in pairs)
+
+
 def ensctl_request(n_iters, calls):
     return "C07 ensctl (n %s) (calls (%s)) (fuel 100000)" % (common.nl(n_iters), " ".join(k for k, _ in calls))
 
@@ -1651,6 +1753,11 @@ def ens_stream(seed, shard, ncases, tier, hist, findings, samples, ks=None):
     for k in (range(ncases) if ks is None else ks):
         rng = case_rng(PID + "/ens", seed, shard, k)
         case = ens_case(rng, tier)
+        e0 = None
+        if case.get("early"):
+            e0 = ens_resolve_early(case)
+            if e0 is None:
+                bump("ens-early:probe-failed"); case.pop("early")
         meta = {"stream": "ens", "seed": seed, "shard": shard, "k": k, "tier": tier, "case": case}
         try:
             base, bcalls = run_ensemble(case, None, "solve")
@@ -1675,6 +1782,16 @@ def ens_stream(seed, shard, ncases, tier, hist, findings, samples, ks=None):
                                                 "pop" if tname in ("CRT", "And") or (tname == "Or" and case["term"][1][0] == "CRT") else "hist"))
         if nm >= 2 and base["total_evaluations"] > 3 * nm and spread:
             nontrivial += 1
+        # WHEN the first member stops (iterations it made: 1 = at generation 0, after its initial evaluation only), and
+        # whether the others run on after it - the situation in which step-wise mode keeps calling Step on a finished member
+        first = min(n_iters) if n_iters else 0
+        bump("ens:first-stop-after-iterations:%s:%s" % (str(first) if first <= 3 else "4+", "others-run-on" if spread else "all-together"))
+        if spread:
+            bump("ens:stopped-member-stepped-again:%s:%s" % (case["nested"], "at-generation-0" if first == 1 else ("at-generation-1" if first == 2 else "later")))
+        if case.get("early"):
+            ng0 = sum(1 for n in n_iters if n == 1)
+            bump("ens-early:gen%d:%s" % (case["early"]["gen"], "alone" if case["term"][0] == "VTR" else "or"))
+            bump("ens-early:members-stopping-at-generation-0:%s" % ("none" if ng0 == 0 else ("all" if ng0 == nm else ("one" if ng0 == 1 else "some"))))
         if len(set(m["bestEnergy"] for m in base["members"])) < nm:
             bump("ens:tied-members")
         j = case["steps_before"]
@@ -1686,7 +1803,17 @@ def ens_stream(seed, shard, ncases, tier, hist, findings, samples, ks=None):
                ("reversed", reversed_map(), ["steps-whole", j]), ("shuffled", shuffled_map(k + 1), "solve-step"),
                ("dillcopy", dillcopy_map(), "step-loop"), ("threads", thread_map(2, keep=True), ["steps-whole", j])]
         slow_start = case["kind"] == "Sparsity"        # its `_InitialPoints` is a differential-evolution run per point, in every run
-        variants += [rot[(k + i) % len(rot)] for i in range(1 if slow_start else (3 if tier == "quick" else 5))]
+        # a FIXED number of Steps that covers the slowest member (`ensemble_step_eq_solve`: any k >= the slowest), and Steps
+        # on an ensemble that a Solve has finished: every member is finished, none may move
+        ov = (case.get("early") or {}).get("over", 1 + k % 3)
+        if case.get("early") and not slow_start:
+            # early stops: every driving mode with the built-in map, the over-stepping ones under other maps as well
+            variants += [("python_map", None, "step-cost"), ("python_map", None, ["step-over", ov]), ("python_map", None, ["solve-over", ov]),
+                         [("reversed", reversed_map(), ["step-over", ov]), ("shuffled", shuffled_map(k + 2), ["solve-over", ov]),
+                          ("threads", thread_map(2, keep=True), ["step-over", ov])][k % 3]]
+        else:
+            variants.append(("python_map", None, [["step-over", "solve-over"][k % 2], ov]))
+        variants += [rot[(k + i) % len(rot)] for i in range(1 if slow_start else ((2 if case.get("early") else 3) if tier == "quick" else 5))]
         # maps through which the members travel as dill pickles (forked workers: one fork per worker and map call): the
         # step-wise schedules only where the run is short
         if longest > 14:
@@ -1699,7 +1826,7 @@ def ens_stream(seed, shard, ncases, tier, hist, findings, samples, ks=None):
             variants.append(("processes", fork_map(2, use_dill=True), ["steps-whole", j]))
         if bcalls:
             lines.append(ensctl_request(n_iters, bcalls)); pending.append(("python_map", "solve", bcalls, n_iters, meta))
-        nbad = 0; instance_reported = 0
+        nbad = 0; instance_reported = 0; over_reported = 0
         for name, mp, mode in variants:
             if nbad >= 2:
                 break              # two failing schedules of one case are reported; the rest would repeat them
@@ -1728,7 +1855,22 @@ def ens_stream(seed, shard, ncases, tier, hist, findings, samples, ks=None):
                                         "the ensemble raised %r" % (exc,), c)); continue
             bump("ens-runs:%s:%s" % (name, mtag))
             dk, dr, ds = ens_diff(base, r)
-            if dk or dr or ds:
+            if (dk or dr or ds) and mtag == "step-over" and overstep_clip_only(case, base, r, dk, dr, ds):
+                # known finding F75: the ensemble's OWN re-decoration (its `_live` flag is off after Finalize) at a Step
+                # made after it has stopped clips, in place, the population it shares with its best member
+                bump("ens:step-after-termination:outside-vertex-clipped")
+                if over_reported == 0:
+                    c = dict(meta); c["map"] = name; c["mode"] = mode
+                    c["base"] = {"bestSolution": base["bestSolution"], "population": base["population"], "bestEnergy": base["bestEnergy"]}
+                    c["other"] = {"bestSolution": r["bestSolution"], "population": r["population"], "bestEnergy": r["bestEnergy"]}
+                    findings.append(Finding("monitor", OVERSTEP_KEY,
+                                            "Solve() and a Step() loop report bestSolution %r / population %r (bestEnergy %r); %d more Step() on the "
+                                            "stopped ensemble (%s map) and it reports bestSolution %r / population %r with the same energy, counters, "
+                                            "histories and messages: strict ranges %r..%r" % (
+                                                base["bestSolution"], base["population"], base["bestEnergy"], int(mode[1]), name,
+                                                r["bestSolution"], r["population"], case["lo"], case["hi"]), c))
+                over_reported += 1
+            elif dk or dr or ds:
                 nbad += 1
                 c = dict(meta); c["map"] = name; c["mode"] = mode
                 c["base"] = {kk: base[kk] for kk in dk if kk != "members"}; c["other"] = {kk: r[kk] for kk in dk if kk != "members"}
@@ -1779,7 +1921,7 @@ def ens_stream(seed, shard, ncases, tier, hist, findings, samples, ks=None):
         if not bad and mall and calls:
             # the driving loop ended exactly when the model's ensemble first reports every member terminated
             first = next((q for q, v in enumerate(mall) if v == "true"), None)
-            if mtag in ("solve-step", "step-loop", "step-cost") and first != len(calls) - 1:
+            if mtag in ("solve-step", "step-loop", "step-cost", "step-over") and first != len(calls) - 1:
                 bad = ("stop", "the ensemble stopped after %d calls, the model's members are all terminated after call %r" % (len(calls), first))
         if bad:
             findings.append(Finding("correspondence", "ens/ctl/%s/model-diverges/%s" % (mtag, bad[0]), "%s map, %s: %s" % (name, mode, bad[1]), c))
@@ -1789,7 +1931,7 @@ def ens_stream(seed, shard, ncases, tier, hist, findings, samples, ks=None):
 # =====================================================================================================
 # shard / main / replay
 # =====================================================================================================
-BUDGET = {"quick": {"cfg": 90, "perm": 8, "live": 4, "map": 12, "ens": 4},
+BUDGET = {"quick": {"cfg": 90, "perm": 8, "live": 4, "map": 12, "ens": 5},
           "thorough": {"cfg": 500, "perm": 6, "live": 20, "map": 70, "ens": 28}}
 
 
@@ -1919,7 +2061,13 @@ def main(tier, seed):
             "VTR), the population (CandidateRelativeTolerance) or both (Or / And) or the ensemble's default, limits mostly wide so "
             "that the members stop by themselves at DIFFERENT iterations (counted: ens:members-stop-at-*): Solve vs "
             "Solve(step=True) vs Step() loop vs Step(cost) loop vs j Steps then Solve() vs j Steps then Solve(step=False), under "
-            "python_map / reversed / shuffled / thread / dill-copying / forked-process(dill) maps: best, counters, message, every "
+            "Step() loop followed by 1-3 more Steps (a fixed number of Steps covering the slowest member) vs Solve() followed by "
+            "1-3 Steps, under "
+            "python_map / reversed / shuffled / thread / dill-copying / forked-process(dill) maps; half of the cases are EARLY-STOP "
+            "cases: a probe run reads the members' energy histories and a one-sided value-to-reach level is put through the "
+            "rank-th smallest energy the members have at generation 0 / 1 / 2 / 3 / 5 (alone or Or-ed with the case's termination), so "
+            "that one / some / all members meet their termination at generation 0 (a single step record) or 1, 2, ... while the "
+            "others run on (counted: ens:first-stop-after-iterations:*, ens-early:*), and these run all eight driving modes: best, counters, message, every "
             "member's result, history, message AND complete state (population, energies, _live); per ensemble call and member "
             "the number of decorations and iterations and the _live flag against the Lean control-logic model `ensctl` (oracle: "
             "the iterations each member performs in the run-to-completion run) (non-trivial = >= 2 members, > 3 evaluations each, "
